@@ -315,11 +315,43 @@ func (c comparison) execute(_ *Ctx, params []Value) (Value, error) {
 // compared with ==, comparing them would panic at run time
 func errUncomparable(m mode, params []Value) error {
 	for _, p := range params {
-		if p != nil && !reflect.TypeOf(p).Comparable() {
+		if p != nil && !isComparable(reflect.ValueOf(p)) {
 			return ParamTypeError(modeNames[m], "comparable value", p)
 		}
 	}
 	return nil
+}
+
+// isComparable looks into interface, array and struct values as well:
+// their types are comparable, the values they hold may not be
+func isComparable(v reflect.Value) bool {
+	switch v.Kind() {
+	case reflect.Invalid:
+		return true
+	case reflect.Interface:
+		return v.IsNil() || isComparable(v.Elem())
+	case reflect.Array:
+		if !v.Type().Comparable() {
+			return false
+		}
+		for i := 0; i < v.Len(); i++ {
+			if !isComparable(v.Index(i)) {
+				return false
+			}
+		}
+		return true
+	case reflect.Struct:
+		if !v.Type().Comparable() {
+			return false
+		}
+		for i := 0; i < v.NumField(); i++ {
+			if !isComparable(v.Field(i)) {
+				return false
+			}
+		}
+		return true
+	}
+	return v.Type().Comparable()
 }
 
 func comparisonEquals(_ *Ctx, params []Value) (Value, error) {
